@@ -6,6 +6,8 @@ derived reader accepts (FIELDS/VARIANTS constants and the field-identifier visit
 PartialEq (what "compares equal" means) is derived, i.e. looks at every field; field types' own Serialize impls are
 crate-local paired ones or belong to rand/core/alloc.
 """
+CONFIGS_THOROUGH = ["serde", "std_math"]
+
 import re
 
 from facts import span_str
